@@ -50,7 +50,9 @@ def _drawn_z_of(w):
 
 
 def z_run(next0, free0, ops):
-    """ops: ["N"] | ["D", i] (i indexes the live widgets, newest first). → (per-op outputs, hints, final)"""
+    """ops: ["N", format spec, class index] (class: `Wd.WIDGET_CLASSES` — UrwidImage itself or an
+    application-defined subclass) | ["D", i] (i indexes the live widgets of all classes, newest first).
+    → (per-op outputs, hints, final)"""
     Wd.env.reset_env()
     Wd.env.set_env(name="kitty", cell_size=(4, 8))
     KittyImage._supported = True
@@ -62,7 +64,8 @@ def z_run(next0, free0, ops):
             if op[0] == "N":
                 had_free = bool(UrwidImage._ti_free_z_indexes)
                 try:
-                    w = UrwidImage(KittyImage(_IMG), op[1] if len(op) > 1 else "")
+                    wcls = Wd.WIDGET_CLASSES[op[2] if len(op) > 2 else 0]
+                    w = wcls(KittyImage(_IMG), op[1] if len(op) > 1 else "")
                 except UrwidImageError:
                     outs.append("UrwidImageError")
                     hints.append("-")
@@ -371,6 +374,24 @@ KNOWN_SCRIPTS = {
         "steps": [{"op": "draw", "layout": ["hpile", [[5, ["img", 0]], [1, ["fill", "-"]], [5, ["img", 1]], [None, ["fill", "."]]]]},
                   {"op": "draw", "layout": ["hpile", [[5, ["img", 0]], [1, ["fill", "-"]], [None, ["fill", "."]]]]},
                   {"op": "draw", "layout": ["hpile", [[5, ["img", 0]], [1, ["fill", "-"]], [5, ["img", 1]], [None, ["fill", "."]]]]}]},
+    # widgets of UrwidImage and of an application-defined subclass share one allocator; one of them moves
+    "subclass-interleaved": {
+        "term": "kitty", "W": 30, "H": 12, "cell": [4, 8],
+        "widgets": [{"style": "kitty", "iw": 40, "ih": 20, "upscale": True, "cls": 1},
+                    {"style": "kitty", "iw": 40, "ih": 20, "upscale": True, "cls": 0},
+                    {"style": "kitty", "iw": 40, "ih": 20, "upscale": True, "cls": 2}],
+        "steps": [{"op": "draw", "layout": ["hpile", [[4, ["img", 0]], [4, ["img", 1]], [None, ["fill", "."]]]]},
+                  {"op": "draw", "layout": ["hpile", [[4, ["img", 0]], [2, ["fill", "-"]], [4, ["img", 1]], [None, ["fill", "."]]]]},
+                  {"op": "draw", "layout": ["hpile", [[4, ["img", 0]], [2, ["fill", "-"]], [4, ["img", 2]], [None, ["fill", "."]]]]}]},
+    # urwid's "redraw screen" (clear + the same canvas object), then the image moves away
+    "clear-redraw-same-then-move": {
+        "term": "kitty", "W": 30, "H": 12, "cell": [4, 8],
+        "widgets": [{"style": "kitty", "iw": 40, "ih": 20, "upscale": True}],
+        "steps": [{"op": "draw", "layout": ["hpile", [[4, ["img", 0]], [None, ["fill", "."]]]]},
+                  {"op": "clear"}, {"op": "draw", "same": True},
+                  {"op": "draw", "layout": ["hpile", [[6, ["fill", "x"]], [4, ["img", 0]], [None, ["fill", "."]]]]},
+                  {"op": "stop"}, {"op": "start"}, {"op": "draw", "same": True},
+                  {"op": "draw", "layout": ["hpile", [[4, ["img", 0]], [None, ["fill", "."]]]]}]},
     "konsole-iterm2-scroll": {
         "term": "konsole", "W": 30, "H": 12, "cell": [4, 8],
         "widgets": [{"style": "iterm2", "iw": 40, "ih": 40, "upscale": True}, {"style": "kitty", "iw": 40, "ih": 20}],
@@ -471,12 +492,16 @@ class C18(Property):
             free0 = sorted(rng.sample(pool, rng.randrange(0, min(6, n) + 1)))
         ops = []
         nlive = 0
+        # widgets of UrwidImage only, or interleaved with one or two application-defined subclasses: the
+        # allocator (counter and free set) is one for all of them
+        classes = rng.choice([[0], [0, 1], [0, 1, 2], [1, 2], [0, 0, 1]])
         for _ in range(rng.randrange(1, 25)):
             if nlive and rng.random() < 0.45:
                 ops.append(["D", rng.randrange(nlive + (1 if rng.random() < 0.1 else 0))])
                 nlive -= 1 if ops[-1][1] < nlive else 0
             else:
-                ops.append(["N"] + ([G.gen_style_spec(rng)] if rng.random() < 0.3 else []))
+                ops.append(["N", G.gen_style_spec(rng) if rng.random() < 0.3 else "",
+                            rng.choice(classes)])
                 nlive += 1  # (an allocation that raises leaves a phantom: `D` beyond the end is a no-op)
         return {"next0": next0, "free0": free0, "ops": ops}
 
@@ -484,9 +509,12 @@ class C18(Property):
         outs, hints, final, zs, drawn = z_run(d["next0"], d["free0"], d["ops"])
         line = z_line(d["next0"], d["free0"], d["ops"], hints)
         kind = "z-exhaust" if "UrwidImageError" in outs else ("z-reuse" if any(h not in ("-", None) for h in hints) else "z-fresh")
+        if len({op[2] for op in d["ops"] if op[0] == "N" and len(op) > 2}) > 1:
+            kind += "-subclasses"
         fail = None
         if len(set(zs)) != len(zs) or any(not (-LIM < z < LIM) for z in zs):
-            fail = Failure("z-index/duplicate-or-out-of-range", f"live z-indexes {zs}")
+            fail = Failure("z-index/duplicate-or-out-of-range",
+                           f"live z-indexes (widgets of all classes, newest first) {zs}")
         bad = [(z, dz) for z, dz in drawn if dz != [z]]
         if fail is None and bad:
             fail = Failure("z-index/drawn-differs", f"widget holding z-index {bad[0][0]} is drawn with {bad[0][1]}")
@@ -545,6 +573,15 @@ class C18(Property):
 
     def search(self, rng, tier, reasons):
         out = []
+        zhist = [{"next0": 1, "free0": [], "ops": [["N", "", a], ["N", "", b], ["N", "", c], ["D", 1], ["N", "", a]]}
+                 for a, b, c in ((1, 0, 0), (0, 1, 0), (1, 2, 1), (0, 0, 1))]
+        for d in zhist + [self.gen_z(rng) for _ in range(300)]:
+            c = self.z_case(d)
+            fail = self._cache[c.line][1]
+            if fail:
+                fail.case = c
+                out.append(fail)
+                break
         for name, sc in KNOWN_SCRIPTS.items():
             line, impl, fail, _ = hist_case(json.loads(json.dumps(sc)))
             if fail:
